@@ -38,7 +38,8 @@ def World.init (k nh : Nat) : World :=
   { σS := [], σD := [], ρ := fun x y => x = y ∧ x < k, nS := k + 1 + nh, nD := k + 1 }
 
 theorem World.init_good (k nh : Nat) : (World.init k nh).Good := by
-  refine ⟨fun a b b' h h' => by rw [← h.1, ← h'.1], fun a a' b h h' => by rw [h.1, h'.1], ?_, ?_⟩
+  refine ⟨fun a b b' h h' => by rw [← h.1, ← h'.1], fun a a' b h h' => by rw [h.1, h'.1], ?_, ?_,
+    fun a b _ => ⟨fun p hp => by simp [World.init] at hp, fun p hp => by simp [World.init] at hp⟩⟩
   · intro v hv
     rcases hv with ⟨p, hp, _⟩ | ⟨b, r⟩
     · simp [World.init] at hp
